@@ -274,6 +274,16 @@ func (e *Engine) intrinsic(name string) stubFn {
 			}
 			return nil
 		}
+	case "vrf_env":
+		// vrf_env(prefix, field string, set bool, value string): declares one environment variable
+		return func(m *Machine, c *frame, fn *ssa.Function, a []Value) Value {
+			if m.env == nil {
+				m.env = map[string]envRec{}
+			}
+			key := m.envKey(constStr(m, a[0], "env prefix"), constStr(m, a[1], "env field"))
+			m.env[key] = envRec{set: m.term(a[2]), val: m.term(a[3])}
+			return nil
+		}
 	case "vrf_elapse":
 		// vrf_elapse(ns int64): ns nanoseconds pass; timers expire at their instants
 		return func(m *Machine, c *frame, fn *ssa.Function, a []Value) Value {
